@@ -25,6 +25,10 @@ Flow<W> &CircuitFlowGeneratorSolver<W>::add_row() {
             .output = PauliString<W>(num_qubits),
             .measurements = {},
         });
+    if (imag_bits.num_bits_padded() < table.size()) {
+        // One imaginary flag per table row (the table can have more rows than there are qubits).
+        imag_bits.preserving_resize(table.size() * 2);
+    }
     return table.back();
 }
 
@@ -624,7 +628,7 @@ std::vector<std::optional<std::vector<int32_t>>> solve_for_flow_measurements(con
     std::vector<std::optional<std::vector<int32_t>>> result;
     for (size_t k = 0; k < flows.size(); k++) {
         Flow<W> &solved = solver.table[k + num_circuit_flows];
-        if (solver.imag_bits[k] || !solved.input.ref().has_no_pauli_terms() || !solved.output.ref().has_no_pauli_terms()) {
+        if (solver.imag_bits[k + num_circuit_flows] || !solved.input.ref().has_no_pauli_terms() || !solved.output.ref().has_no_pauli_terms()) {
             result.push_back(std::optional<std::vector<int32_t>>{});
             continue;
         }
